@@ -264,6 +264,18 @@ struct decoder<E, T, true, false, true>
     }
 };
 
+/// a default value living on the heap: a temporary T (or optional<T>) would need sizeof(T) bytes of the caller's stack
+template <typename T>
+struct heap_value
+{
+    T* ptr;
+    heap_value(): ptr(new T()) { }
+    ~heap_value() { delete ptr; }
+private:
+    heap_value(const heap_value&);
+    heap_value& operator=(const heap_value&);
+};
+
 template <endianness E, typename T,
           bool = codec_traits<T>::size == -1>
 struct decoder_greedy;
@@ -288,7 +300,10 @@ struct decoder_greedy<E, T, true>
         while(true)
         {
             const uint8_t* element = pos;
-            v.push_back(T());
+            {
+                heap_value<T> value;
+                v.push_back(*value.ptr);
+            }
             if (!decoder<E, T>::decode(v.back(), pos, end))
             {
                 /// bytes of an incomplete element are not consumed
@@ -342,7 +357,15 @@ inline bool do_decode(optional<T>& x, const uint8_t*& pos, const uint8_t* end)
     {
         return false;
     }
-    x = disc ? optional<T>(T()) : optional<T>();
+    if (disc)
+    {
+        heap_value<T> value;
+        x = *value.ptr;
+    }
+    else
+    {
+        x.reset();
+    }
     if (alignment<T>::value > sizeof(uint32_t))
     {
         if (!do_decode_advance(alignment<T>::value - sizeof(uint32_t), pos, end))
